@@ -25,6 +25,47 @@ private def l0half (a p : Nat) : Nat := (a * ((p + 1) / 2)) % p
 private def outU (l1 : List Nat) (l0 : Nat) : String := s!"{limbsHex l1} ;; {natToHex l0}"
 private def outB (l1 : List Nat) (n l0 : Nat) : String := s!"{limbsHexLen l1} ;; {n}:{natToHex l0}"
 
+/-- `c07.hook.*`: crate-internal functions reached through `crypto_bigint::verif_hooks`.
+    `sub_mod_with_carry`: L0 (the difference `(a + carry·2^BITS) - b` reduced mod `p`) is printed only inside the
+    documented precondition `carry ≤ 1`, `-p ≤ (a + carry·2^BITS) - b < p`; outside it the line is `L1` alone.
+    `mac_by_limb`: L0 = `a + b·c + carry` split at `2^BITS`.
+    `div_by_2`: L0 (the `r < p` with `2r ≡ a`) only for `a < p` (`p` is odd by construction of `Odd`). -/
+private def hookC07 (op : String) (n : Nat) (vs : List Nat) : Option String :=
+  let L := toLimbs n
+  let K := B ^ n
+  let subL0 (a carry b p : Nat) : Option Nat :=
+    let d : Int := (a : Int) + (carry : Int) * (K : Int) - (b : Int)
+    if carry ≤ 1 ∧ -(p : Int) ≤ d ∧ d < (p : Int) then some (d % (p : Int)).toNat else none
+  match op, vs with
+  | "c07.hook.sub_mod_with_carry", [a, carry, b, p] =>
+    let l1 := subModWithCarry (L a) carry (L b) (L p)
+    some (match subL0 a carry b p with
+      | some r => outU l1 r
+      | none => limbsHex l1)
+  | "c07.hook.bsub_mod_with_carry", [a, carry, b, p] =>
+    let l1 := bSubModWithCarry (L a) carry (L b) (L p)
+    some (match subL0 a carry b p with
+      | some r => outB l1 n r
+      | none => limbsHexLen l1)
+  | "c07.hook.mac_by_limb", [a, b, c, carry] =>
+    let r := macByLimb (L a) (L b) c carry
+    let t := a + b * c + carry
+    some s!"{limbsHex r.1} {natToHex r.2} ;; {natToHex (t % K)} {natToHex (t / K)}"
+  | "c07.hook.bmac_by_limb", [a, b, c, carry] =>
+    let r := macByLimb (L a) (L b) c carry
+    let t := a + b * c + carry
+    some s!"{limbsHexLen r.1} {natToHex r.2} ;; {n}:{natToHex (t % K)} {natToHex (t / K)}"
+  | "c07.hook.div_by_2", [a, p] =>
+    let l1 := divBy2 (L a) (L p)
+    some (if a < p then outU l1 (l0half a p) else limbsHex l1)
+  | "c07.hook.bdiv_by_2", [a, p] =>
+    let l1 := bDivBy2 (L a) (L p)
+    some (if a < p then outB l1 n (l0half a p) else limbsHexLen l1)
+  | "c07.hook.bdiv_by_2_assign", [a, p] =>
+    let l1 := bDivBy2 (L a) (L p)
+    some (if a < p then outB l1 n (l0half a p) else limbsHexLen l1)
+  | _, _ => none
+
 def dispatchC07 : Dispatch := fun op args =>
   match args with
   | [] => none
@@ -66,7 +107,7 @@ def dispatchC07 : Dispatch := fun op args =>
       | "c07.b.mul_mod_tr", [a, b, p] => some (outB (mulMod (L a) (L b) (L p)) n (l0mul a b p))
       | "c07.b.div_by_2", [a, p] => some (outB (bDivBy2 (L a) (L p)) n (l0half a p))
       | "c07.b.div_by_2_assign", [a, p] => some (outB (bDivBy2 (L a) (L p)) n (l0half a p))
-      | _, _ => none
+      | _, _ => if op.startsWith "c07.hook." then hookC07 op n vs else none
     | _, _ => badArgs
 
 end CB
